@@ -44,14 +44,14 @@ Qed.
 (* a name is out of reach of a star import of module md' when md' has an __all__ that does not list it *)
 Definition hidden (md' : lmod) (n : nat) : bool :=
   match l_all md' with
-  | Some ks => match n with 0 => true | S k => negb (existsb (Nat.eqb k) ks) end
+  | Some ks => negb (Nat.leb 5 n && existsb (Nat.eqb (n - 5)) ks)
   | None => false
   end.
 
 Lemma hidden_not_exposed : forall md' n e, hidden md' n = true -> exposed md' e = true -> e_name e <> n.
 Proof.
   intros md' n e Hh He Hn. unfold hidden, exposed in *. destruct (l_all md') as [ks|]; [|discriminate].
-  rewrite Hn in He. destruct n as [|k]; [discriminate|]. rewrite He in Hh. discriminate.
+  rewrite Hn in He. rewrite He in Hh. discriminate.
 Qed.
 
 (* THE LAYOUT THEOREM: expand_wildcards never changes the member bound to a name when every star import of the module
@@ -75,14 +75,14 @@ Qed.
 
 (* hence: `from dataclasses import dataclass, ...` placed after the star imports, or star imports of modules with an
    __all__, keep the decorator recognised *)
-Corollary recognised_sufficient : forall L m md old,
-  nth_error L m = Some md -> lookup_e helper (fst (visit md)) = Some old -> e_bind old = BStd ->
+Corollary recognised_sufficient : forall h L m md old,
+  nth_error L m = Some md -> lookup_e h (fst (visit md)) = Some old -> e_bind old = BStd ->
   (forall line m', In (line, m') (snd (visit md)) ->
-     line <= e_line old \/ match nth_error L m' with Some md' => hidden md' helper = true | None => True end) ->
-  recognised true L m = true.
+     line <= e_line old \/ match nth_error L m' with Some md' => hidden md' h = true | None => True end) ->
+  recognised_h h true L m = true.
 Proof.
-  intros L m md old Hm Hl Hb Hst. unfold recognised, scope_at_event.
-  rewrite (expand_keeps L (List.length L) m md helper old Hm Hl Hst), Hb. reflexivity.
+  intros h L m md old Hm Hl Hb Hst. unfold recognised_h, scope_at_event.
+  rewrite (expand_keeps L (List.length L) m md h old Hm Hl Hst), Hb. reflexivity.
 Qed.
 
 (* the table the extension effectively reads is the table itself when everything is seen *)
@@ -95,13 +95,25 @@ Qed.
 (* ---- the generated two-module layouts, computed ---- *)
 Definition stdm (l : list lstmt) := mklmod l None.
 (* finding C18-F10: the star import after the stdlib imports, sibling without __all__ *)
-Definition L_shadow : layout := [stdm []; stdm [LStd; LClass 0]; stdm [LStd; LStar 1; LClass 1]].
+Definition L_shadow : layout := [stdm []; stdm [LStd [0; 1; 2; 3; 4]; LClass 0]; stdm [LStd [0; 1; 2; 3; 4]; LStar 1; LClass 1]].
 (* the same with the star import first, with an __all__ in the sibling, with an explicit import *)
-Definition L_wild : layout := [stdm []; stdm [LStd; LClass 0]; stdm [LStar 1; LStd; LClass 1]].
-Definition L_all : layout := [stdm []; mklmod [LStd; LClass 0] (Some [0]); stdm [LStd; LStar 1; LClass 1]].
-Definition L_from : layout := [stdm []; stdm [LStd; LClass 0]; stdm [LStd; LFrom 1 0; LClass 1]].
+Definition L_wild : layout := [stdm []; stdm [LStd [0; 1; 2; 3; 4]; LClass 0]; stdm [LStar 1; LStd [0; 1; 2; 3; 4]; LClass 1]].
+Definition L_all : layout := [stdm []; mklmod [LStd [0; 1; 2; 3; 4]; LClass 0] (Some [0]); stdm [LStd [0; 1; 2; 3; 4]; LStar 1; LClass 1]].
+Definition L_from : layout := [stdm []; stdm [LStd [0; 1; 2; 3; 4]; LClass 0]; stdm [LStd [0; 1; 2; 3; 4]; LFrom 1 0; LClass 1]].
 (* re-export through the package: __init__ star-imports both modules, the derived module imports from the package *)
-Definition L_reexport : layout := [stdm [LStar 1; LStar 2]; stdm [LStd; LClass 0]; stdm [LStd; LFrom 0 0; LClass 1]].
+Definition L_reexport : layout := [stdm [LStar 1; LStar 2]; stdm [LStd [0; 1; 2; 3; 4]; LClass 0]; stdm [LStd [0; 1; 2; 3; 4]; LFrom 0 0; LClass 1]].
+
+(* helper names re-exported by a module of the package (module 3 = _compat), by explicit import or by star import:
+   the decorator / field() / KW_ONLY are one hop too far (finding C18-F10, generalised) *)
+Definition L_compat_from : layout :=
+  [stdm []; stdm [LStd [0; 1; 2; 3; 4]; LClass 0]; stdm [LStd [0; 3; 4]; LFromH 3 1; LFromH 3 2; LClass 1]; stdm [LStd [1; 2]]].
+Definition L_compat_star : layout :=
+  [stdm []; stdm [LStd [0; 1; 2; 3; 4]; LClass 0]; stdm [LStd [1; 2; 3]; LStar 3; LClass 1]; stdm [LStd [0; 4]]].
+Example compat_computed :
+  recognised true L_compat_from 2 = true /\ recognised_h h_field true L_compat_from 2 = false /\ recognised_h h_kwonly true L_compat_from 2 = false /\
+  recognised true L_compat_star 2 = false /\ recognised false L_compat_star 2 = false /\ recognised_h h_field true L_compat_star 2 = true /\
+  recognised_h h_classvar true L_compat_star 2 = false.
+Proof. vm_compute. repeat split; reflexivity. Qed.
 
 Example layouts_computed :
   recognised true L_shadow 2 = false /\ base_resolves true L_shadow 2 0 = true /\
